@@ -41,7 +41,10 @@ for p in props:
             'design_ref': 'DESIGN.md section 4, ' + pid,
         },
         'level_note': 'Trusted base: CPython 3.12 ast module, nominal name resolution (exact for name-dispatched code), frozen reference tables in sa/reference.py, '
-                      'installed CPython headers/stdlib as reference tables; clang 14 parser for the thorough tier where used. The behaviour itself is not executed.',
+                      'installed CPython headers/stdlib as reference tables; clang 14 as a parser where used. The behaviour itself is not executed. '
+                      'Thorough tier = the same decision on the tree under test, plus a liveness pass: every recorded breaking change of this property (mutation corpus of tools/selftest.py, '
+                      'independently seeded defects under seeded/, reverted fix commits under regress/) is applied to a scratch copy of the sources and the rules are re-run on it; '
+                      'the outcome (reported / stale / not reported) is written to the evidence file and a SELFCHECK line and does not change the verdict.',
         'technique': 'static analysis: ' + mod.TECHNIQUE,
     })
 man = {
